@@ -55,8 +55,8 @@ def requestReset (s : State) (reason : String) (from_ : Nat) : State :=
 
 def finishFlight (s : State) (f : Flight) (err : String) : State :=
   let s := { s with flights := s.flights.filter (·.caller != f.caller),
-                    timers := s.timers.filter (· != s!"invoke:{f.caller}") }
-  s.emit s!"caller{f.caller} done err={err} body={f.body}"
+                    timers := s.timers.filter (· != Timer.invoke f.caller) }
+  s.emitCaller f.caller err f.body
 
 /-- FastInvoke up to its select -/
 def fastInvoke (s : State) (f : Flight) : State :=
@@ -122,11 +122,11 @@ def handleRestore (s : State) (key : String) : State :=
   | some _ =>
     let s := { s with credKey := some key, renderer := .restore }
     if s.rt != some .restoreReady then (restoreDoneEvent s true).emit "restore done err=ok"
-    else { s with rtFlag := true, restoreWaiting := true, timers := s.timers ++ ["restoreHook"] }
+    else { s with rtFlag := true, restoreWaiting := true, timers := s.timers ++ [.restoreHook] }
 
 /-- the end of `handleRestore` with the error (if any) of the wait -/
 def restoreFinish (s : State) (err : Option String) : State :=
-  let s := { s with restoreWaiting := false, timers := s.timers.filter (· != "restoreHook") }
+  let s := { s with restoreWaiting := false, timers := s.timers.filter (· != Timer.restoreHook) }
   let err := match s.fatal with | some t => some t | none => err
   match err with
   | none => (restoreDoneEvent s true).emit "restore done err=ok"
@@ -229,17 +229,17 @@ inductive Op where
   | exit (base : String) (status : String) (zero : Bool)
   | reset (reason : String)
   | shutdown
-  | timer (name : String)
+  | timer (t : Timer)
   | nop
 
 def applyOp (s : State) : Op → State
   | .invoke c _ h =>
     let s := startServerInit s
-    if s.resv.isSome then s.emit s!"caller{c} done err=AlreadyReserved body=empty"
+    if s.resv.isSome then s.emitCaller c "AlreadyReserved" "empty"
     else
       let k := s.nextK
       { s with nextK := k + 1, resv := some { k := k, caller := c }, invokerNil := false,
-               flights := s.flights ++ [{ caller := c, k := k, phash := h }], timers := s.timers ++ [s!"invoke:{c}"] }
+               flights := s.flights ++ [{ caller := c, k := k, phash := h }], timers := s.timers ++ [.invoke c] }
   | .beh base b => { s with beh := (s.beh.filter (·.1 != base)) ++ [(base, b)] }
   | .register name es v => agRegister s name es v
   | .agNext name mode => agNext s name mode
@@ -262,21 +262,20 @@ def applyOp (s : State) : Op → State
     | none => s
   | .reset reason => requestReset s reason 0
   | .shutdown => { s with queue := s.queue ++ [.shutdown 0] }
-  | .timer name =>
-    if !s.timers.contains name then s else
-    let s := { s with timers := s.timers.filter (· != name) }
-    if name == "rtDeadline" then { s with rtDeadlineFired := true }
-    else if name == "agDeadline" then { s with agDeadlineFired := true }
-    else if name == "grace" then { s with graceFired := true }
-    else if name == "restoreHook" then
+  | .timer t =>
+    if !s.timers.contains t then s else
+    let s := { s with timers := s.timers.filter (· != t) }
+    match t with
+    | .rtDeadline => { s with rtDeadlineFired := true }
+    | .agDeadline => { s with agDeadlineFired := true }
+    | .grace => { s with graceFired := true }
+    | .restoreHook =>
       -- deadline of AwaitRuntimeReadyWithDeadline: ErrRestoreHookTimeout, the init flow is cancelled
       if s.restoreWaiting then restoreFinish (cancelInitFlow s .restoreTimeout) (some "Runtime.RestoreHookUserTimeout") else s
-    else if name == "resetTail:0" then resetTail s 0
-    else if name == "resetTail:1" then resetTail s 1
-    else if name == "resetTail:2" then resetTail s 2
-    else
-      -- invoke:<c> — the timeout goroutine of caller c fires
-      match s.flights.find? (fun f => s!"invoke:{f.caller}" == name && f.g0 == .selecting) with
+    | .resetTail n => if n ≤ 2 then resetTail s n else s
+    | .invoke c =>
+      -- the timeout goroutine of caller c fires
+      match s.flights.find? (fun f => f.caller == c && f.g0 == .selecting) with
       | some f => setFlight (requestReset s "Timeout" 1) { f with g0 := .timeoutResetWait, timedOut := true }
       | none => s
   | .nop => s
@@ -284,7 +283,7 @@ def applyOp (s : State) : Op → State
 def step (v : Nat) (s : State) (o : Op) : State := settle v 400 (applyOp { s with out := [] } o)
 
 def obsOf (s : State) : String :=
-  let xs := (s.out.toArray.qsort (· < ·)).toList
+  let xs := (s.outs.toArray.qsort (· < ·)).toList
   " ; ".intercalate xs ++ " | blocked=" ++ blockedStr s
 
 end Rie.Sys
